@@ -1,6 +1,8 @@
 // E13 correspondence harness (C17): a real Server and ClientSession over in-memory transports; the four
 // list methods, add/remove/replace between page fetches, issued / stale / forged / garbage cursors,
-// the client iterators against manual paging. One record per operation (ENGINE_GUIDE.md).
+// the client iterators against manual paging; tools registered through every entry point, Server.AddTool
+// calls parked between their validation and their registering section (addhold / addrelease), refused
+// registrations (addbad). One record per operation (ENGINE_GUIDE.md).
 package mcp
 
 import (
@@ -18,9 +20,11 @@ import (
 	"sort"
 	"strings"
 	"sync"
+	"sync/atomic"
 	"testing"
 	"time"
 
+	"github.com/google/jsonschema-go/jsonschema"
 	"github.com/modelcontextprotocol/go-sdk/jsonrpc"
 )
 
@@ -33,6 +37,9 @@ type pgItem struct{ k, v string }
 type pgIter struct {
 	next func() (pgItem, error, bool)
 	stop func()
+	// the iterator's context: cancelled by a watchdog when a pull hangs (a list request that is never
+	// answered must become an observation, not the end of the harness process)
+	cancel context.CancelFunc
 }
 
 type pgState struct {
@@ -50,6 +57,118 @@ type pgState struct {
 	// script by a receiving middleware instead of by the SDK's handler
 	scriptMu sync.Mutex
 	script   map[string]*pgScript
+	// Server.AddTool calls parked in their validation section (user code: the schema's MarshalJSON)
+	held []*pgHeld
+}
+
+// pgGate is a user-supplied schema value. Server.AddTool marshals the schemas it is given while it
+// validates the tool, before it takes Server.mu to register it: the first MarshalJSON call parks until
+// released, so that other registrations, removals and list requests run between AddTool's validation
+// section and its registering section.
+type pgGate struct {
+	parked           atomic.Bool
+	entered, release chan struct{}
+}
+
+func (g *pgGate) MarshalJSON() ([]byte, error) {
+	if g.parked.CompareAndSwap(false, true) {
+		close(g.entered)
+		<-g.release
+	}
+	return []byte(`{"type":"object"}`), nil
+}
+
+type pgHeld struct {
+	k, v string
+	gate *pgGate
+	done chan string
+}
+
+func pgToolHandler(context.Context, *CallToolRequest) (*CallToolResult, error) {
+	return &CallToolResult{}, nil
+}
+
+type pgIn struct {
+	P string `json:"p,omitempty"`
+}
+type pgOut struct {
+	Q int `json:"q"`
+}
+
+// the ways a tool can be registered (all end in Server.AddTool's registering section)
+var pgAddVariants = []string{"schema", "out", "outschema", "generic", "typed"}
+
+func pgAddVia(srv *Server, variant, k, v string) {
+	raw := json.RawMessage(`{"type":"object"}`)
+	switch variant {
+	case "schema":
+		srv.AddTool(&Tool{Name: k, Description: v, InputSchema: &jsonschema.Schema{Type: "object"}}, pgToolHandler)
+	case "out":
+		srv.AddTool(&Tool{Name: k, Description: v, InputSchema: raw, OutputSchema: json.RawMessage(`{"type":"object","properties":{"q":{"type":"integer"}}}`)}, pgToolHandler)
+	case "outschema":
+		srv.AddTool(&Tool{Name: k, Description: v, InputSchema: raw, OutputSchema: &jsonschema.Schema{Type: "object"}}, pgToolHandler)
+	case "generic":
+		AddTool(srv, &Tool{Name: k, Description: v}, func(context.Context, *CallToolRequest, map[string]any) (*CallToolResult, any, error) {
+			return &CallToolResult{}, nil, nil
+		})
+	case "typed":
+		AddTool(srv, &Tool{Name: k, Description: v}, func(context.Context, *CallToolRequest, pgIn) (*CallToolResult, pgOut, error) {
+			return nil, pgOut{}, nil
+		})
+	default:
+		srv.AddTool(&Tool{Name: k, Description: v, InputSchema: raw}, pgToolHandler)
+	}
+}
+
+// registrations the Add* functions must refuse (they panic): per kind, the variants
+var pgBadVariants = map[string][]string{
+	"tools":     {"nil", "niltyped", "notobject", "rawnotobject", "rawbroken", "header0", "header1", "header2", "header3", "header4", "header5", "outbroken", "outniltyped", "generic"},
+	"resources": {"uri"},
+	"templates": {"template"},
+}
+
+// pgAddBad attempts a registration that must be refused; it returns normally iff it was NOT refused.
+func pgAddBad(srv *Server, kind, variant, k, v string) {
+	raw := json.RawMessage(`{"type":"object"}`)
+	switch kind {
+	case "resources":
+		srv.AddResource(&Resource{URI: k, Name: v}, func(context.Context, *ReadResourceRequest) (*ReadResourceResult, error) {
+			return &ReadResourceResult{}, nil
+		})
+		return
+	case "templates":
+		srv.AddResourceTemplate(&ResourceTemplate{URITemplate: k, Name: v}, func(context.Context, *ReadResourceRequest) (*ReadResourceResult, error) {
+			return &ReadResourceResult{}, nil
+		})
+		return
+	}
+	t := &Tool{Name: k, Description: v, InputSchema: raw}
+	switch {
+	case variant == "nil":
+		t.InputSchema = nil
+	case variant == "niltyped":
+		t.InputSchema = (*jsonschema.Schema)(nil)
+	case variant == "notobject":
+		t.InputSchema = &jsonschema.Schema{Type: "string"}
+	case variant == "rawnotobject":
+		t.InputSchema = json.RawMessage(`{"type":"array"}`)
+	case variant == "rawbroken":
+		t.InputSchema = json.RawMessage(`{"type":`)
+	case strings.HasPrefix(variant, "header"):
+		var i int
+		fmt.Sscanf(variant, "header%d", &i)
+		t.InputSchema = json.RawMessage(pgBadSchemas[i%len(pgBadSchemas)])
+	case variant == "outbroken":
+		t.OutputSchema = json.RawMessage(`[`)
+	case variant == "outniltyped":
+		t.OutputSchema = (*jsonschema.Schema)(nil)
+	case variant == "generic":
+		AddTool(srv, &Tool{Name: k, Description: v}, func(context.Context, *CallToolRequest, int) (*CallToolResult, any, error) {
+			return &CallToolResult{}, nil, nil
+		})
+		return
+	}
+	srv.AddTool(t, pgToolHandler)
 }
 
 // pgScript is a foreign server's behaviour for one list method: a table from the cursor received to
@@ -236,6 +355,14 @@ func (st *pgState) close() {
 	for _, it := range st.iters {
 		pgSafe(it.stop)
 	}
+	for _, h := range st.held {
+		close(h.gate.release)
+		select {
+		case <-h.done:
+		case <-time.After(10 * time.Second):
+		}
+	}
+	st.held = nil
 	if st.cs != nil {
 		st.cs.Close()
 	}
@@ -431,8 +558,7 @@ func pgList(st *pgState, kind, raw string) (items []pgItem, next string, err err
 	return nil, "", fmt.Errorf("bad kind")
 }
 
-func pgSeq(st *pgState, kind, raw string) iter.Seq2[pgItem, error] {
-	ctx := context.Background()
+func pgSeq(ctx context.Context, st *pgState, kind, raw string) iter.Seq2[pgItem, error] {
 	switch kind {
 	case "tools":
 		var p *ListToolsParams
@@ -572,6 +698,107 @@ func pgApply(stp **pgState, toks []string) (opline, obs string, tags []string) {
 			}
 		}
 		return opline, "ok", []string{"add", "add-" + kind}
+	case "addvia":
+		// `addvia <variant> tools x<key> x<val> …`: the other ways of registering a tool
+		variant, kind := toks[1], toks[2]
+		if kind != "tools" {
+			return opline, "bad-op", nil
+		}
+		for i := 3; i+1 < len(toks); i += 2 {
+			pgAddVia(st.srv, variant, pgUnhex(toks[i]), pgUnhex(toks[i+1]))
+		}
+		return opline, "ok", []string{"add", "add-" + kind, "addvia-" + variant}
+	case "addbad":
+		// `addbad <kind> <variant> x<key> x<val>`: a registration the Add* function must refuse (it
+		// panics); refused or not, answered `done` / `accepted` — what is registered must not change
+		if len(toks) != 5 {
+			return opline, "bad-op", nil
+		}
+		kind, variant, k, v := toks[1], toks[2], pgUnhex(toks[3]), pgUnhex(toks[4])
+		refused := false
+		func() {
+			defer func() {
+				if recover() != nil {
+					refused = true
+				}
+			}()
+			pgAddBad(st.srv, kind, variant, k, v)
+		}()
+		tags = []string{"addbad", "addbad-" + kind, "addbad-" + variant}
+		if pgHas(st.keys[kind], k) {
+			tags = append(tags, "addbad-replace")
+		}
+		if !refused {
+			return opline, "accepted", append(tags, "addbad-accepted")
+		}
+		return opline, "done", tags
+	case "addhold":
+		// `addhold tools <in|out> x<key> x<val>`: Server.AddTool on another goroutine, parked inside its
+		// validation section (the MarshalJSON of the input / output schema it was given)
+		if len(toks) != 5 || toks[1] != "tools" || len(st.held) >= 3 {
+			return opline, "bad-op", nil
+		}
+		h := &pgHeld{k: pgUnhex(toks[3]), v: pgUnhex(toks[4]), done: make(chan string, 1),
+			gate: &pgGate{entered: make(chan struct{}), release: make(chan struct{})}}
+		t := &Tool{Name: h.k, Description: h.v, InputSchema: json.RawMessage(`{"type":"object"}`)}
+		if toks[2] == "out" {
+			t.OutputSchema = h.gate
+		} else {
+			t.InputSchema = h.gate
+		}
+		go func() {
+			defer func() {
+				if recover() != nil {
+					h.done <- "panic"
+				}
+			}()
+			st.srv.AddTool(t, pgToolHandler)
+			h.done <- "ok"
+		}()
+		tags = []string{"addhold", "addhold-" + toks[2]}
+		if pgHas(st.keys["tools"], h.k) {
+			tags = append(tags, "addhold-replace")
+		} else {
+			tags = append(tags, "addhold-new")
+		}
+		if len(st.held) > 0 {
+			tags = append(tags, "addhold-second")
+		}
+		select {
+		case <-h.gate.entered:
+			st.held = append(st.held, h)
+			return opline, "done", tags
+		case r := <-h.done:
+			return opline, "not-held " + r, tags
+		case <-time.After(20 * time.Second):
+			return opline, "err timeout", tags
+		}
+	case "addrelease":
+		// `addrelease tools x<key> x<val>`: let the parked AddTool go on (its registering section) and wait
+		// for it to return; with nothing parked (a minimised replay) the whole AddTool runs here
+		if len(toks) != 4 || toks[1] != "tools" {
+			return opline, "bad-op", nil
+		}
+		k, v := pgUnhex(toks[2]), pgUnhex(toks[3])
+		var h *pgHeld
+		for i, x := range st.held {
+			if x.k == k && x.v == v {
+				h = x
+				st.held = append(append([]*pgHeld{}, st.held[:i]...), st.held[i+1:]...)
+				break
+			}
+		}
+		if h == nil {
+			pgAddVia(st.srv, "", k, v)
+			return opline, "ok", []string{"add", "add-tools", "addrelease-unheld"}
+		}
+		close(h.gate.release)
+		select {
+		case r := <-h.done:
+			return opline, r, []string{"add", "add-tools", "addrelease"}
+		case <-time.After(20 * time.Second):
+			return opline, "err timeout", []string{"add", "add-tools", "addrelease"}
+		}
 	case "remove":
 		kind := toks[1]
 		var ks []string
@@ -673,8 +900,9 @@ func pgApply(stp **pgState, toks []string) (opline, obs string, tags []string) {
 		if old := st.iters[kind]; old != nil {
 			old.stop()
 		}
-		next, stop := iter.Pull2(pgSeq(st, kind, raw))
-		st.iters[kind] = &pgIter{next: next, stop: stop}
+		ictx, icancel := context.WithCancel(context.Background())
+		next, stop := iter.Pull2(pgSeq(ictx, st, kind, raw))
+		st.iters[kind] = &pgIter{next: next, stop: func() { icancel(); stop() }, cancel: icancel}
 		return opline, "ok", []string{"iopen"}
 	case "ipull":
 		kind := toks[1]
@@ -687,6 +915,9 @@ func pgApply(stp **pgState, toks []string) (opline, obs string, tags []string) {
 		var b strings.Builder
 		b.WriteString("items")
 		end := "more"
+		var hung atomic.Bool
+		watchdog := time.AfterFunc(20*time.Second, func() { hung.Store(true); it.cancel() })
+		defer watchdog.Stop()
 		for i := 0; i < m; i++ {
 			x, err, ok := it.next()
 			if !ok {
@@ -695,6 +926,9 @@ func pgApply(stp **pgState, toks []string) (opline, obs string, tags []string) {
 			}
 			if err != nil {
 				end = pgErrObs(err)
+				if hung.Load() {
+					end = "err timeout"
+				}
 				break
 			}
 			b.WriteString(" " + hxs(x.k) + ":" + hxs(x.v))
@@ -720,7 +954,9 @@ func pgApply(stp **pgState, toks []string) (opline, obs string, tags []string) {
 		b.WriteString("items")
 		end := "end"
 		n := 0
-		for x, err := range pgSeq(st, kind, raw) {
+		actx, acancel := context.WithTimeout(context.Background(), 60*time.Second)
+		defer acancel()
+		for x, err := range pgSeq(actx, st, kind, raw) {
 			if err != nil {
 				end = pgErrObs(err)
 				break
@@ -904,6 +1140,9 @@ func (g *pgGen) kind() string { return pgKinds[g.rng.Intn(len(pgKinds))] }
 func (g *pgGen) addOp(kind string, n int) string {
 	st := *g.st
 	toks := []string{"add", kind}
+	if kind == "tools" && n <= 4 && g.rng.Intn(3) == 0 { // another way of registering a tool
+		toks = []string{"addvia", pgAddVariants[g.rng.Intn(len(pgAddVariants))], kind}
+	}
 	for i := 0; i < n; i++ {
 		var k string
 		if ks := st.keys[kind]; len(ks) > 0 && g.rng.Intn(4) == 0 {
@@ -962,7 +1201,43 @@ func (g *pgGen) removeOp(kind string) string {
 	return strings.Join(toks, " ")
 }
 
+// holdOp: a Server.AddTool that parks inside its validation section (2/3 of the time for a name that is
+// registered: a replacement; sometimes for a name another parked AddTool carries).
+func (g *pgGen) holdOp() string {
+	st := *g.st
+	const kind = "tools"
+	var k string
+	switch ks := st.keys[kind]; {
+	case len(st.held) > 0 && g.rng.Intn(3) == 0:
+		k = st.held[g.rng.Intn(len(st.held))].k
+	case len(ks) > 0 && g.rng.Intn(3) != 0:
+		k = ks[g.rng.Intn(len(ks))]
+	default:
+		k = g.key(kind)
+	}
+	return "addhold " + kind + " " + []string{"in", "out"}[g.rng.Intn(2)] + " x" + hxs(k) + " x" + hxs(g.val())
+}
+
+// releaseOp: one of the parked AddTool calls goes on to its registering section.
+func (g *pgGen) releaseOp() string {
+	st := *g.st
+	h := st.held[g.rng.Intn(len(st.held))]
+	if !pgHas(st.keys["tools"], h.k) {
+		st.keys["tools"] = append(st.keys["tools"], h.k)
+	}
+	return "addrelease tools x" + hxs(h.k) + " x" + hxs(h.v)
+}
+
 func (g *pgGen) mutation(kind string) string {
+	if st := *g.st; kind == "tools" && g.rng.Intn(6) == 0 {
+		// the two sections of an AddTool anywhere a mutation can happen (between page fetches, iterator pulls)
+		if len(st.held) > 0 && g.rng.Intn(2) == 0 {
+			return g.releaseOp()
+		}
+		if len(st.held) < 2 {
+			return g.holdOp()
+		}
+	}
 	if g.rng.Intn(2) == 0 {
 		return g.addOp(kind, 1+g.rng.Intn(2))
 	}
@@ -979,6 +1254,9 @@ func (g *pgGen) readonly() string {
 			return ks[g.rng.Intn(len(ks))], true
 		}
 		return g.key(kind), false
+	}
+	if g.rng.Intn(8) == 0 {
+		return g.addBad()
 	}
 	switch r := g.rng.Intn(100); {
 	case r < 50:
@@ -1008,6 +1286,95 @@ func (g *pgGen) readonly() string {
 		return "ro complete.x" + hxs(k) + " -"
 	default:
 		return "ro ping -"
+	}
+}
+
+// addBad draws a registration that must be refused: a tool (half of the time under a registered name: a
+// refused replacement keeps the old tool) with a missing / nil / non-object / unmarshalable input schema,
+// an invalid x-mcp-header annotation, a broken output schema; a resource whose URI does not parse; a
+// resource template that is not a URI template. What is registered must not change.
+func (g *pgGen) addBad() string {
+	st := *g.st
+	kind := []string{"tools", "tools", "resources", "templates"}[g.rng.Intn(4)]
+	vs := pgBadVariants[kind]
+	variant := vs[g.rng.Intn(len(vs))]
+	var k string
+	switch kind {
+	case "tools":
+		if ks := st.keys[kind]; len(ks) > 0 && g.rng.Intn(2) == 0 {
+			k = ks[g.rng.Intn(len(ks))]
+		} else {
+			k = g.key(kind)
+		}
+	case "resources":
+		// in the path (url.Parse does not check the query), or a control character anywhere
+		k = "file:///" + []string{"%zz", "%-", "\x7f", "%a/"}[g.rng.Intn(4)] + strings.TrimPrefix(g.key(kind), "file:///")
+	default:
+		k = strings.TrimSuffix(g.key(kind), "{x}") + []string{"{x", "{", "{x}{", "{x}}"}[g.rng.Intn(4)]
+	}
+	return "addbad " + kind + " " + variant + " x" + hxs(k) + " x" + hxs(g.val())
+}
+
+// heldAdd: Server.AddTool is parked inside its validation section (half of the time for a name that is
+// registered: a replacement) while the tool is removed / other tools are added, removed / the listing is
+// traversed (which rebuilds the sorted index); then it goes on and registers. Afterwards the tool is
+// registered: a traversal must return it.
+func (g *pgGen) heldAdd(emit pgEmit) {
+	const kind = "tools"
+	if st := *g.st; len(st.held) >= 2 {
+		return
+	}
+	op := g.holdOp()
+	if emit(op) != "done" {
+		return
+	}
+	f := strings.Fields(op)
+	k := pgUnhex(f[3])
+	for i, n := 0, 1+g.rng.Intn(4); i < n; i++ {
+		st := *g.st
+		switch r := g.rng.Intn(12); {
+		case r < 3: // the tool is removed while its (re-)registration is under way
+			emit("remove " + kind + " x" + hxs(k))
+			var keep []string
+			for _, x := range st.keys[kind] {
+				if x != k {
+					keep = append(keep, x)
+				}
+			}
+			st.keys[kind] = keep
+		case r < 5:
+			emit(g.mutation(kind))
+		case r < 7:
+			emit("list " + kind + " -")
+		case r < 9:
+			g.traversal(emit, kind, []int{0, 0, 50}[g.rng.Intn(3)])
+		case r < 11:
+			if st.iters[kind] == nil {
+				g.iterRun(emit, kind, []int{0, 40}[g.rng.Intn(2)])
+			}
+		default:
+			emit(g.readonly())
+		}
+	}
+	g.releaseAll(emit)
+}
+
+// releaseAll: every parked AddTool registers (in a random order); afterwards all of them are registered:
+// a traversal must return them.
+func (g *pgGen) releaseAll(emit pgEmit) {
+	st := *g.st
+	if st == nil || len(st.held) == 0 {
+		return
+	}
+	for st = *g.st; len(st.held) > 0; st = *g.st {
+		if emit(g.releaseOp()) == "bad-op" {
+			break
+		}
+	}
+	if g.rng.Intn(4) != 0 {
+		g.traversal(emit, "tools", 0)
+	} else {
+		emit("iterall tools -")
 	}
 }
 
@@ -1281,14 +1648,27 @@ func (g *pgGen) scriptRun(emit pgEmit, kind string) {
 	emit("unscript " + kind)
 }
 
+// pgHangs counts the cases of this run that ended in a request that was never answered (20 s each).
+var pgHangs int
+
 func pgRunCase(out *verifOut, cs string, c int) {
 	rng := verifRng(int64(c))
 	var st *pgState
 	defer func() { st.close() }()
 	g := &pgGen{rng: rng, st: &st}
+	// A request that hangs is observed once (`err timeout`); the rest of the case is not run: every later
+	// request to the stuck server would hang as long again.
+	dead := false
 	emit := func(op string) string {
+		if dead {
+			return "skipped"
+		}
 		opline, obs, tags := pgApply(&st, strings.Fields(op))
 		out.line(cs, opline, obs, tags...)
+		if obs == "err timeout" {
+			dead = true
+			pgHangs++
+		}
 		return obs
 	}
 	out.line(cs, "reset", "ok", "reset")
@@ -1329,7 +1709,9 @@ func pgRunCase(out *verifOut, cs string, c int) {
 		if rng.Intn(3) == 0 {
 			kind = g.kind()
 		}
-		switch r := rng.Intn(112); {
+		switch r := rng.Intn(122); {
+		case r >= 112: // an AddTool parked between its validation and its registering section
+			g.heldAdd(emit)
 		case r >= 100: // the client against a foreign (scripted) server
 			g.scriptRun(emit, kind)
 		case r < 30:
@@ -1355,6 +1737,7 @@ func pgRunCase(out *verifOut, cs string, c int) {
 			emit(g.mutation(kind))
 		}
 	}
+	g.releaseAll(emit)
 }
 
 func TestVerifPaginate(t *testing.T) {
@@ -1378,7 +1761,7 @@ func TestVerifPaginate(t *testing.T) {
 		}
 	}
 	n := verifN(1200, 12000)
-	for c := 0; c < n; c++ {
+	for c := 0; c < n && pgHangs < 4; c++ { // four hangs observed: more of them only burn the time budget
 		pgRunCase(out, fmt.Sprintf("g%d", c), c)
 		// a hang or crash of a later case must not lose what has been observed so far
 		out.mu.Lock()
